@@ -339,7 +339,20 @@ fn dec_flat(v: &[i64]) -> Vec<Flat> {
 // Rendering to TeX
 // ------------------------------------------------------------------------------------------
 
-const N_PLAIN: i64 = 22;
+const N_PLAIN: i64 = 25;
+
+/// Active characters `\let` equal to the eight conditional primitives, two sets (alias flag 2
+/// and 3): (primitive, set A, set B).
+const ACTIVE: [(&str, char, char); 8] = [
+    ("iftrue", '!', ':'),
+    ("iffalse", '?', ';'),
+    ("ifodd", '|', '['),
+    ("ifnum", '*', ']'),
+    ("ifcase", '@', '~'),
+    ("else", '(', ','),
+    ("or", ')', '.'),
+    ("fi", '/', '_'),
+];
 /// TeX source of `other n` and the text it prints when delivered.
 fn plain_src(n: i64, redefine: bool) -> (&'static str, &'static str) {
     const L: [&str; 12] = ["a", "b", "c", "d", "e", "f", "g", "h", "i", "j", "k", "l"];
@@ -354,8 +367,24 @@ fn plain_src(n: i64, redefine: bool) -> (&'static str, &'static str) {
         18 => (if redefine { "\\fi " } else { "\\mF " }, "W"),
         19 => (if redefine { "\\or " } else { "\\mG " }, "X"),
         20 => (if redefine { "\\iftrue " } else { "\\mH " }, "Y"),
-        _ => (if redefine { "\\ifcase " } else { "\\mI " }, "Z"),
+        21 => (if redefine { "\\ifcase " } else { "\\mI " }, "Z"),
+        // active characters that must NOT count as conditionals:
+        22 => ("$", "V"), // was \let to \fi, then redefined as a macro
+        23 => ("&", ""),  // \let to \relax
+        _ => ("+", "a"),  // \let to the letter a
     }
+}
+
+/// `\catcode`/`\let` lines for the active characters.
+fn active_preamble() -> String {
+    let mut s = String::new();
+    for (prim, a, b) in ACTIVE {
+        for c in [a, b] {
+            s.push_str(&format!("\\catcode`\\{c}=13 \\let{c}=\\{prim} "));
+        }
+    }
+    s.push_str("\\catcode`\\$=13 \\let$=\\fi \\def${V}\\catcode`\\&=13 \\let&=\\relax \\catcode`\\+=13 \\let+=a ");
+    s
 }
 
 const PREAMBLE: &str = "\\let\\Xiftrue=\\iftrue \\let\\Xiffalse=\\iffalse \\let\\Xifodd=\\ifodd \\let\\Xifnum=\\ifnum \
@@ -375,11 +404,16 @@ fn set_reg(reg: i64, n: i64, s: &mut String) {
 
 fn render(fl: &[Flat], redefine: bool) -> String {
     let mut s = String::from(PREAMBLE);
+    s.push_str(&active_preamble());
     if redefine {
         s.push_str(REDEFINE);
     }
     let name = |base: &str, al: i64, forced: bool| -> String {
-        if al != 0 || (forced && redefine) {
+        if al >= 2 {
+            // alias flag 2 / 3: the active character of set A / B that was \let to the primitive
+            let (_, a, b) = ACTIVE.iter().find(|(p, _, _)| *p == base).expect("primitive");
+            (if al == 2 { *a } else { *b }).to_string()
+        } else if al != 0 || (forced && redefine) {
             format!("\\X{base}")
         } else {
             format!("\\{base}")
@@ -524,8 +558,15 @@ impl<'a> Gen<'a> {
             _ => interesting_i32(self.rng) as i64,
         }
     }
+    /// How a conditional token is written: 0 primitive name, 1 control-sequence alias,
+    /// 2 / 3 active-character alias (two sets of characters).
     fn flag(&mut self) -> i64 {
-        self.rng.chance(1, 3) as i64
+        match self.rng.below(6) {
+            0..=2 => 0,
+            3 => 1,
+            4 => 2,
+            _ => 3,
+        }
     }
     fn test(&mut self) -> TestR {
         let kind = *self.rng.pick(&[0, 0, 1, 1, 2, 2, 2, 3, 3, 3]);
@@ -699,6 +740,53 @@ fn path_tags(items: &[Item], out: &mut CaseOutcome) {
     }
 }
 
+/// Where active-character aliases occur: in text the specification delivers or in skipped text,
+/// and at which nesting depth (0 = top level).
+fn active_tags(items: &[Item], delivered: bool, depth: u32, out: &mut CaseOutcome) {
+    let place = if delivered { "selected" } else { "skipped" };
+    let mark = |al: i64, what: &str, out: &mut CaseOutcome| {
+        if al >= 2 {
+            out.tag(format!("active:{what} in {place} text"));
+            out.tag(format!("active:alias at depth {}", depth.min(6)));
+        }
+    };
+    for it in items {
+        match it {
+            Item::Plain(p) if (22..25).contains(&p.rem_euclid(N_PLAIN)) && *p >= 0 => {
+                out.tag(format!("active:non-conditional active char in {place} text"))
+            }
+            Item::Plain(_) => {}
+            Item::IfThen(t, a, fi) => {
+                mark(t.al, "if", out);
+                mark(*fi, "fi", out);
+                active_tags(a, delivered && test_holds(t), depth + 1, out);
+            }
+            Item::IfElse(t, a, el, b, fi) => {
+                mark(t.al, "if", out);
+                mark(*el, "else", out);
+                mark(*fi, "fi", out);
+                active_tags(a, delivered && test_holds(t), depth + 1, out);
+                active_tags(b, delivered && !test_holds(t), depth + 1, out);
+            }
+            Item::Case(t, brs, els, fi) => {
+                mark(t.al, "if", out);
+                mark(*fi, "fi", out);
+                let n = t.ops[0];
+                for (i, (b, or)) in brs.iter().enumerate() {
+                    if i + 1 != brs.len() {
+                        mark(*or, "or", out);
+                    }
+                    active_tags(b, delivered && n == i as i64, depth + 1, out);
+                }
+                if let Some((el, e)) = els {
+                    mark(*el, "else", out);
+                    active_tags(e, delivered && (n < 0 || n >= brs.len() as i64), depth + 1, out);
+                }
+            }
+        }
+    }
+}
+
 fn depth_of(items: &[Item]) -> u32 {
     items
         .iter()
@@ -832,7 +920,256 @@ fn x_src(x: &X, nmac: i64, s: &mut String) {
         }
     }
 }
-fn render_x(x: &XCase) -> String {
+// ------------------------------------------------------------------------------------------
+// "VM history": state-churning operations run before an \expandafter chain. They exercise the
+// VM's pooled resources (token buffers handed back by discarded token lists, macro-argument
+// buffers, the save stack) and each has an output the harness can predict by itself.
+// ------------------------------------------------------------------------------------------
+
+#[derive(Clone, Debug, PartialEq)]
+enum HOp {
+    /// `\toks k={n letters}` (local) / `\global\toks k={…}`
+    Toks { k: i64, n: i64, global: bool },
+    Bg,
+    Eg,
+    /// call of a parameterless macro: 0 `\hA` (empty), 1 `\hE` (prints e), 2 `\hD` (current body)
+    Call(i64),
+    /// `\hB{n letters}` (one braced argument, printed)
+    CallArg(i64),
+    /// `\hC xy` (two single-token arguments, printed swapped)
+    CallTwo(i64),
+    /// `\def\hD{n letters}` (long bodies)
+    Def(i64),
+    /// a fixed nested conditional
+    Cond(i64),
+    /// a fixed \expandafter chain
+    Xa(i64),
+    /// `\the\toks k`
+    The(i64),
+}
+
+fn hletters(n: i64, salt: i64) -> String {
+    (0..n.clamp(0, 400)).map(|i| (b'm' + ((i * 5 + n + salt).rem_euclid(14)) as u8) as char).collect()
+}
+
+const H_COND: [(&str, &str); 4] = [
+    ("\\iftrue \\iffalse x\\else y\\fi \\fi ", "y"),
+    ("\\ifcase 2 a\\or b\\or \\ifodd 3 c\\fi \\else d\\fi ", "c"),
+    ("\\iffalse \\ifnum 1<2 a\\else b\\fi \\else \\iftrue z\\fi \\fi ", "z"),
+    ("\\ifnum 5>3 \\ifcase 1 p\\or q\\fi \\fi ", "q"),
+];
+const H_XA: [(&str, &str); 4] = [
+    ("\\expandafter n\\hE ", "ne"),
+    ("\\expandafter \\expandafter \\expandafter n\\expandafter o\\hE ", "noe"),
+    ("\\expandafter \\hB \\hF ", "pq"),
+    ("\\expandafter \\hC \\hE rs", "res"),
+];
+const H_PREAMBLE: &str = "\\def\\hA{}\\def\\hE{e}\\def\\hB#1{#1}\\def\\hC#1#2{#2#1}\\def\\hD{}\\def\\hF{{pq}}";
+
+fn enc_hist(h: &[HOp]) -> Vec<i64> {
+    let mut o = vec![];
+    for op in h {
+        match op {
+            HOp::Toks { k, n, global: false } => o.extend([0, *k, *n]),
+            HOp::Bg => o.push(1),
+            HOp::Eg => o.push(2),
+            HOp::Call(j) => o.extend([3, *j]),
+            HOp::CallArg(n) => o.extend([4, *n]),
+            HOp::CallTwo(n) => o.extend([5, *n]),
+            HOp::Def(n) => o.extend([6, *n]),
+            HOp::Cond(v) => o.extend([7, *v]),
+            HOp::Xa(v) => o.extend([8, *v]),
+            HOp::The(k) => o.extend([9, *k]),
+            HOp::Toks { k, n, global: true } => o.extend([10, *k, *n]),
+        }
+    }
+    o
+}
+fn dec_hist(v: &[i64]) -> Vec<HOp> {
+    let mut c = Cur(v);
+    let mut o = vec![];
+    while !c.0.is_empty() {
+        o.push(match c.next() {
+            0 => HOp::Toks { k: c.next().rem_euclid(4), n: c.next(), global: false },
+            1 => HOp::Bg,
+            2 => HOp::Eg,
+            3 => HOp::Call(c.next().rem_euclid(3)),
+            4 => HOp::CallArg(c.next()),
+            5 => HOp::CallTwo(c.next()),
+            6 => HOp::Def(c.next()),
+            7 => HOp::Cond(c.next().rem_euclid(4)),
+            8 => HOp::Xa(c.next().rem_euclid(4)),
+            9 => HOp::The(c.next().rem_euclid(4)),
+            10 => HOp::Toks { k: c.next().rem_euclid(4), n: c.next(), global: true },
+            k => panic!("bad history op {k}"),
+        });
+    }
+    o
+}
+
+/// TeX source of the history, the text it prints, and tags. Registers 0..3 are `\toks`, slot 4 is
+/// the body of `\hD`; local assignments are undone at group end, global ones are not. A `}` with
+/// no open group is dropped and open groups are closed at the end (so every shrunk history is
+/// still a valid one).
+fn render_hist(h: &[HOp], tags: &mut Vec<String>) -> (String, String) {
+    let mut src = String::from(H_PREAMBLE);
+    let mut out = String::new();
+    let mut val: Vec<String> = vec![String::new(); 5];
+    let mut saves: Vec<Vec<(usize, String)>> = vec![];
+    // does the last pool-relevant operation hand back a non-empty discarded token list?
+    let mut last_discard = false;
+    fn assign(val: &mut [String], saves: &mut [Vec<(usize, String)>], k: usize, new: String, global: bool) -> bool {
+        let old = std::mem::replace(&mut val[k], new);
+        let mut discarded = !old.is_empty();
+        if global {
+            for lvl in saves.iter_mut() {
+                lvl.retain(|(i, _)| *i != k);
+            }
+        } else if let Some(top) = saves.last_mut() {
+            if !top.iter().any(|(i, _)| *i == k) {
+                top.push((k, old));
+                discarded = false; // the old value is kept on the save stack, not discarded
+            }
+        }
+        discarded
+    }
+    for op in h {
+        match op {
+            HOp::Toks { k, n, global } => {
+                let body = hletters(*n, *k);
+                if *global {
+                    src.push_str("\\global ");
+                }
+                src.push_str(&format!("\\toks {k}={{{body}}}"));
+                last_discard = assign(&mut val, &mut saves, *k as usize, body, *global);
+                tags.push(format!("xah:op:toks{}", if *global { "-global" } else { "" }));
+                if last_discard {
+                    tags.push("xah:non-empty token list discarded by an assignment".into());
+                }
+            }
+            HOp::Bg => {
+                src.push('{');
+                saves.push(vec![]);
+                tags.push("xah:op:group".into());
+            }
+            HOp::Eg => {
+                if let Some(lvl) = saves.pop() {
+                    src.push('}');
+                    for (k, old) in lvl.into_iter().rev() {
+                        let cur = std::mem::replace(&mut val[k], old);
+                        if k < 4 && !cur.is_empty() {
+                            last_discard = true;
+                            tags.push("xah:non-empty token list discarded at group end".into());
+                        }
+                    }
+                }
+            }
+            HOp::Call(j) => {
+                src.push_str(["\\hA ", "\\hE ", "\\hD "][*j as usize]);
+                match j {
+                    1 => out.push('e'),
+                    2 => out.push_str(&val[4]),
+                    _ => {}
+                }
+                tags.push("xah:op:macro-call".into());
+            }
+            HOp::CallArg(n) => {
+                let a = hletters(*n, 3);
+                src.push_str(&format!("\\hB{{{a}}}"));
+                out.push_str(&a);
+                last_discard = false;
+                tags.push("xah:op:macro-call-with-argument".into());
+            }
+            HOp::CallTwo(n) => {
+                let a = hletters(2, *n);
+                src.push_str(&format!("\\hC {a}"));
+                out.push_str(&a.chars().rev().collect::<String>());
+                last_discard = false;
+                tags.push("xah:op:macro-call-with-argument".into());
+            }
+            HOp::Def(n) => {
+                let body = hletters(*n, 9);
+                src.push_str(&format!("\\def\\hD{{{body}}}"));
+                assign(&mut val, &mut saves, 4, body, false);
+                last_discard = false;
+                tags.push("xah:op:def".into());
+            }
+            HOp::Cond(v) => {
+                src.push_str(H_COND[*v as usize].0);
+                out.push_str(H_COND[*v as usize].1);
+                tags.push("xah:op:conditional".into());
+            }
+            HOp::Xa(v) => {
+                src.push_str(H_XA[*v as usize].0);
+                out.push_str(H_XA[*v as usize].1);
+                last_discard = false;
+                tags.push("xah:op:expandafter".into());
+            }
+            HOp::The(k) => {
+                src.push_str(&format!("\\the\\toks {k} "));
+                out.push_str(&val[*k as usize]);
+                tags.push("xah:op:the".into());
+            }
+        }
+    }
+    while let Some(lvl) = saves.pop() {
+        src.push('}');
+        for (k, old) in lvl.into_iter().rev() {
+            let cur = std::mem::replace(&mut val[k], old);
+            if k < 4 && !cur.is_empty() {
+                last_discard = true;
+                tags.push("xah:non-empty token list discarded at group end".into());
+            }
+        }
+    }
+    if last_discard {
+        tags.push("xah:chain starts right after a discarded non-empty token list".into());
+    }
+    (src, out)
+}
+
+fn gen_hist(rng: &mut Rng) -> Vec<HOp> {
+    let n = 1 + rng.below(10);
+    let len = |rng: &mut Rng| -> i64 {
+        match rng.below(6) {
+            0 => 0,
+            1 => 1,
+            2 | 3 => rng.range(2, 12),
+            4 => rng.range(13, 40),
+            _ => rng.range(41, 200),
+        }
+    };
+    let mut h = vec![];
+    let mut open = 0;
+    for _ in 0..n {
+        match rng.below(20) {
+            0..=6 => h.push(HOp::Toks { k: rng.below(3) as i64, n: len(rng), global: false }),
+            7 => h.push(HOp::Toks { k: rng.below(3) as i64, n: len(rng), global: true }),
+            8 | 9 => {
+                h.push(HOp::Bg);
+                open += 1;
+            }
+            10 | 11 => {
+                if open > 0 {
+                    open -= 1;
+                    h.push(HOp::Eg);
+                } else {
+                    h.push(HOp::The(rng.below(3) as i64));
+                }
+            }
+            12 => h.push(HOp::Call(rng.below(3) as i64)),
+            13 => h.push(HOp::CallArg(len(rng))),
+            14 => h.push(HOp::CallTwo(rng.below(14) as i64)),
+            15 => h.push(HOp::Def(len(rng))),
+            16 => h.push(HOp::Cond(rng.below(4) as i64)),
+            17 => h.push(HOp::Xa(rng.below(4) as i64)),
+            _ => h.push(HOp::The(rng.below(3) as i64)),
+        }
+    }
+    h
+}
+
+fn render_x(x: &XCase, hist_src: &str) -> String {
     let nmac = x.macros.len() as i64;
     let mut s = String::from("\\let\\xb=\\expandafter \\let\\xc=\\expandafter ");
     for (k, (np, body)) in x.macros.iter().enumerate() {
@@ -849,6 +1186,8 @@ fn render_x(x: &XCase) -> String {
         }
         s.push('}');
     }
+    // the history runs after all definitions, directly before the chain
+    s.push_str(hist_src);
     for _ in 0..x.height {
         s.push_str("\\iftrue ");
     }
@@ -990,6 +1329,7 @@ impl C07 {
             out.tag("cond:redefined-names");
         }
         path_tags(&items, out);
+        active_tags(&items, true, 0, out);
         for f in &fl {
             match f {
                 Flat::If(t) => {
@@ -1117,8 +1457,17 @@ impl C07 {
         }
     }
 
-    fn run_xa(&mut self, ints: &[i64], drv: &mut Driver, out: &mut CaseOutcome) {
+    fn run_xa(&mut self, ints: &[i64], hist: &[i64], drv: &mut Driver, out: &mut CaseOutcome) {
         let x = dec_xcase(ints);
+        let hist = dec_hist(hist);
+        let mut htags = vec![];
+        let (hist_src, hist_out) = if hist.is_empty() { (String::new(), String::new()) } else { render_hist(&hist, &mut htags) };
+        if !hist.is_empty() {
+            out.tag(format!("xah:history of {} ops", hist.len().min(10)));
+        }
+        for t in htags {
+            out.tag(t);
+        }
         let nmac = x.macros.len() as i64;
         let n_xa = x.stream.iter().filter(|t| matches!(t, X::Xa(_))).count();
         out.nontrivial = n_xa >= 1 || x.stream.contains(&X::NoExp);
@@ -1153,12 +1502,19 @@ impl C07 {
         if parts.len() != 3 {
             panic!("driver reply malformed: {reply}");
         }
-        let (ms, mo, tex) = (parse_mx(parts[0], nmac), parse_mx(parts[1], nmac), parse_mx(parts[2], nmac));
+        // the history's own output comes first; it does not depend on the chain
+        let pre = |r: Option<Real>| -> Option<Real> {
+            r.map(|r| match r {
+                Real::Ok { out, stack } => Real::Ok { out: format!("{hist_out}{out}"), stack },
+                r => r,
+            })
+        };
+        let (ms, mo, tex) = (pre(parse_mx(parts[0], nmac)), pre(parse_mx(parts[1], nmac)), pre(parse_mx(parts[2], nmac)));
         let (Some(ms), Some(mo), Some(tex)) = (ms, mo, tex) else {
             out.tag("xa:model-out-of-fuel(skipped)");
             return;
         };
-        let src = render_x(&x);
+        let src = render_x(&x, &hist_src);
         let canon = |r: Real| match r {
             Real::Ok { out, .. } => Real::Ok { out, stack: String::new() },
             r => r,
@@ -1201,6 +1557,10 @@ impl C07 {
                 // the model (= the code as it is) has no "don't expand" mark: a token put back by
                 // a \noexpand that was itself expanded by \expandafter is expanded after all
                 out.fail(Kind::ImplVsSpec, "xa", "noexpand: suppression lost when \\noexpand is expanded by \\expandafter", detail.clone());
+            } else if !hist_out.is_empty() && matches!(&io, Real::Ok { out: o, .. } if !o.starts_with(&hist_out)) {
+                // the part printed by the history itself is wrong: token registers, groups and
+                // macro calls are not C07's subject, the expectation is the harness's own simulation
+                out.fail(Kind::ImplVsModel, "xa", "xah: output of the VM-history preamble differs from the harness's register/group simulation", detail.clone());
             } else {
                 out.fail(Kind::ImplVsSpec, "xa", "xa: delivered tokens differ from TeX's \\expandafter/\\noexpand rules", detail.clone());
             }
@@ -1227,7 +1587,9 @@ impl Property for C07 {
          then random well-nested trees of depth 0..6 (uniform over the depth) rendered to TeX with \\let aliases, operands as literals or \\count registers, user macros, \\relax and braces in branches \
          (braces paired only in text the specification selects; arbitrary in skipped text), half of them with the primitive names \\else \\fi \\or \\iftrue \\ifcase redefined as macros; \
          tok: every token list of length <= 3 (quick) / 4 (thorough) over {iftrue,iffalse,ifcase 0/1/2,else,or,fi,a,{,}} and random mutations (drop/insert/swap) of flattened trees; \
-         xa: random streams of 0..24 tokens over \\expandafter, two \\let aliases of it, \\noexpand, 0..4 macros with 0..2 parameters (terminating by construction), \\iftrue, \\fi, \\relax, letters; both EOF positions. \
+         every conditional token is written as the primitive, a control-sequence \\let alias or one of two active characters (\\catcode 13, 16 in all) \\let to it, in selected and skipped text at every depth; three more active characters (\\let to \\fi then redefined as a macro, \\let to \\relax, \\let to a letter) are plain tokens that must not count; \
+         xa: random streams of 0..24 tokens over \\expandafter, two \\let aliases of it, \\noexpand, 0..4 macros with 0..2 parameters (terminating by construction), \\iftrue, \\fi, \\relax, letters; both EOF positions; \
+         xah (3/5 of the xa budget): the same after a random VM history of 1..10 operations (\\toks assignments and overwrites of 0..200 tokens, local and \\global, groups that save/restore them, \\the\\toks, macro calls without/with one braced/with two arguments, \\def with long bodies, nested conditionals, \\expandafter chains) whose own output the harness predicts. \
          Non-trivial = tree depth >= 1 (cond), at least one conditional token (tok), at least one \\expandafter or \\noexpand (xa); distinct = distinct case string."
             .into()
     }
@@ -1261,6 +1623,52 @@ impl Property for C07 {
                     enc_text(&[Item::Case(t, brs, els, 0), Item::Plain(6)], &mut e);
                     v.push(format!("cond {}", join(&e)));
                 }
+            }
+        }
+        // active-character aliases of every tag class, in skipped and in selected text
+        for al in [2i64, 3] {
+            let t = |kind: i64, al: i64, ops: Vec<i64>| TestR { kind, al, sty: 0, ops };
+            let pl = |n: i64| Item::Plain(n);
+            let trees: Vec<Vec<Item>> = vec![
+                // \iffalse ~a\fi b\else c\fi d   (~ = \iftrue)
+                vec![Item::IfElse(t(1, 0, vec![]), vec![Item::IfThen(t(0, al, vec![]), vec![pl(0)], 0), pl(1)], 0, vec![pl(2)], 0), pl(3)],
+                // \iffalse a~b\fi c   (~ = \else)
+                vec![Item::IfElse(t(1, 0, vec![]), vec![pl(0)], al, vec![pl(1)], 0), pl(2)],
+                // \iffalse \iftrue a~b\else c\fi d   (~ = \fi, closing the nested conditional)
+                vec![Item::IfElse(t(1, 0, vec![]), vec![Item::IfThen(t(0, 0, vec![]), vec![pl(0)], al), pl(1)], 0, vec![pl(2)], 0), pl(3)],
+                // \iftrue a\else ~ 3 b~c\fi d   (nested \ifodd and its \fi active, in the skipped else branch)
+                vec![Item::IfElse(t(0, 0, vec![]), vec![pl(0)], 0, vec![Item::IfThen(t(2, al, vec![3]), vec![pl(1)], al), pl(2)], 0), pl(3)],
+                // \ifcase 2 \ifcase 0 x~y\fi ~b~c\fi   (~ = \or at depth 1 and at depth 0)
+                vec![Item::Case(
+                    t(4, 0, vec![2]),
+                    vec![
+                        (vec![Item::Case(t(4, al, vec![0]), vec![(vec![pl(0)], al), (vec![pl(1)], 0)], None, 0)], al),
+                        (vec![pl(2)], al),
+                        (vec![pl(3)], 0),
+                    ],
+                    None,
+                    al,
+                )],
+                // \ifcase 5 a~b\fi   (~ = \else) and the same selected: \ifcase 0 a~b~
+                vec![Item::Case(t(4, 0, vec![5]), vec![(vec![pl(0)], 0)], Some((al, vec![pl(1)])), 0)],
+                vec![Item::Case(t(4, al, vec![0]), vec![(vec![pl(0)], 0)], Some((al, vec![pl(1)])), al)],
+                // \ifnum / \iffalse aliases nested in a skipped \ifcase branch, with the non-conditional
+                // active characters ($ was \let to \fi and then redefined) around them
+                vec![Item::Case(
+                    t(4, 0, vec![1]),
+                    vec![
+                        (vec![pl(22), Item::IfElse(t(3, al, vec![1, 0, 2]), vec![pl(23)], al, vec![Item::IfThen(t(1, al, vec![]), vec![pl(22)], al)], al)], al),
+                        (vec![pl(22), pl(23), pl(24), pl(4)], 0),
+                    ],
+                    None,
+                    0,
+                )],
+            ];
+            for items in trees {
+                let mut e = vec![];
+                enc_text(&items, &mut e);
+                v.push(format!("cond {}", join(&e)));
+                v.push(format!("condR {}", join(&e)));
             }
         }
         // C07-g witness: input ends while \ifcase 2147483647 is skipping
@@ -1361,8 +1769,15 @@ impl Property for C07 {
         }
         // xa
         let mut r = rng.fork();
-        for _ in 0..n_xa {
-            v.push(format!("xa {}", join(&enc_xcase(&gen_xcase(&mut r)))));
+        for i in 0..n_xa {
+            let x = gen_xcase(&mut r);
+            if i % 5 < 2 {
+                v.push(format!("xa {}", join(&enc_xcase(&x))));
+            } else {
+                // the same kind of chain after a random VM history
+                let h = enc_hist(&gen_hist(&mut r));
+                v.push(format!("xah {} {} {}", h.len(), join(&h), join(&enc_xcase(&x))));
+            }
         }
         v
     }
@@ -1373,7 +1788,13 @@ impl Property for C07 {
         match cmd {
             "cond" | "condR" => self.run_cond(cmd == "condR", &parse_i64s(rest), drv, &mut out),
             "tok" | "tokR" => self.run_tok(cmd == "tokR", &parse_i64s(rest), drv, &mut out),
-            "xa" => self.run_xa(&parse_i64s(rest), drv, &mut out),
+            "xa" => self.run_xa(&parse_i64s(rest), &[], drv, &mut out),
+            "xah" => {
+                // `xah <H> <H history ints> <xa case>`
+                let v = parse_i64s(rest);
+                let h = v[0] as usize;
+                self.run_xa(&v[1 + h..], &v[1..1 + h], drv, &mut out)
+            }
             "raw" => {
                 println!("optimized: {:?}", run_tex(rest, false));
                 println!("simple:    {:?}", run_tex(rest, true));
@@ -1411,6 +1832,49 @@ impl Property for C07 {
                 }
                 if cmd == "tokR" {
                     c.push(format!("tok {rest}"));
+                }
+            }
+            "xah" => {
+                let v = parse_i64s(rest);
+                let hn = v[0] as usize;
+                let h = dec_hist(&v[1..1 + hn]);
+                let xa = join(&v[1 + hn..]);
+                let mk = |h: &[HOp]| {
+                    let e = enc_hist(h);
+                    format!("xah {} {} {xa}", e.len(), join(&e)).replace("  ", " ")
+                };
+                c.push(format!("xa {xa}"));
+                if h.len() > 1 {
+                    c.push(mk(&h[..h.len() / 2]));
+                    c.push(mk(&h[h.len() / 2..]));
+                }
+                for i in 0..h.len() {
+                    let mut o = h.clone();
+                    o.remove(i);
+                    if !o.is_empty() {
+                        c.push(mk(&o));
+                    }
+                }
+                for i in 0..h.len() {
+                    // shorter token lists
+                    let mut o = h.clone();
+                    let changed = match &mut o[i] {
+                        HOp::Toks { n, .. } | HOp::CallArg(n) | HOp::Def(n) if *n > 1 => {
+                            *n /= 2;
+                            true
+                        }
+                        _ => false,
+                    };
+                    if changed {
+                        c.push(mk(&o));
+                    }
+                }
+                // shrink the chain with the history kept
+                let head = format!("xah {} {}", hn, join(&v[1..1 + hn]));
+                for cand in self.shrink(&format!("xa {xa}")) {
+                    if let Some(r) = cand.strip_prefix("xa ") {
+                        c.push(format!("{head} {r}"));
+                    }
                 }
             }
             "xa" => {
